@@ -1623,14 +1623,24 @@ class Invoice:
     gross: int = dataclasses.field(init=False, default=0)
     def __post_init__(self):
         self.gross = self.net + self.net * self.rate // 100
+class Span:
+    # no class-level annotations, no slots: what an instance holds is read from the instance -- and instances differ
+    def __init__(self, start: int, stop: typing.Optional[int] = None):
+        self.start = start
+        if stop is not None:
+            self.stop = stop
+    def __repr__(self):
+        return f"Span({vars(self)})"
 """
 SEQ_TYPES = ["int | str", "typing.Union[int, str, None]", "list[int] | list[str]", "int | float", "float | str", "datetime.date | str",
              "decimal.Decimal | str", "bool | int | str", "dict[str, int | str]", "list[int | str]", "tuple[int | str, ...]", "Row",
-             "typing.Optional[Row]", "int | datetime.date", "float | datetime.timedelta", "str", "int", "list[int]", "Invoice", "list[Invoice]"]
+             "typing.Optional[Row]", "int | datetime.date", "float | datetime.timedelta", "str", "int", "list[int]", "Invoice", "list[Invoice]",
+             "Span", "dict[str, int]"]
 SEQ_INPUTS = ["'abc'", "'5'", "'1.5'", "5", "1.5", "float('inf')", "True", "None", "['a', 'b']", "['1', '2']", "[1, 2]", "{'k': 'abc'}",
               "{'k': '5'}", "('x', '7')", "'2020-01-02'", "datetime.date(2020, 1, 2)", "{'key': 'abc'}", "{'key': '5'}",
               "Row('abc')", "Row('5', ['1'])", "Row(5, ['a'])", "b'5'", "b'abc'", "datetime.timedelta(seconds=3)", "7200",
-              "Invoice(100, 20)", "{'net': 100, 'rate': 20}", "[Invoice(1)]", "[{'net': '3'}]"]
+              "Invoice(100, 20)", "{'net': 100, 'rate': 20}", "[Invoice(1)]", "[{'net': '3'}]",
+              "Span(1)", "Span(1, 5)", "Span(2, 7)"]
 SEQ_OPS = ["marshal", "unmarshal", "encode", "decode"]
 
 
